@@ -91,7 +91,7 @@ def generate(repo):
                                                    ".custom " + lstr(short(c)))
     # DAPC / Unknown must still be implemented by the functions the model mirrors
     gear_entries = []
-    for c in gg._GearCommand._gearcommands:
+    for c in reg.gear_families()[0]:
         e = gear_entry(c)
         if e == ".dapc" and (impl(c, "__init__"), impl(c, "from_frame"), impl(c, "__str__")) != \
                 ("DAPC.__init__", "DAPC.from_frame", "DAPC.__str__"):
@@ -131,7 +131,7 @@ def generate(repo):
             i = c._instance if isinstance(c._instance, int) else 999
             return ".special ⟨%s, %d, %d, %s⟩" % (lstr(short(c)), a, i, devspecial_kind(c))
         return ".custom " + lstr(short(c))
-    dev_entries = [dev_entry(c) for c in dg._DeviceCommand._devicecommands]
+    dev_entries = [dev_entry(c) for c in reg.device_families()[0]]
 
     # ---- events --------------------------------------------------------------------------
     def event_kind(c):
@@ -148,23 +148,23 @@ def generate(repo):
             return ".light"
         return ".custom"
     itype_items = ["(%d, ⟨%s, %s⟩)" % (t, lstr(short(c)), event_kind(c))
-                   for t, c in dg._Event._instance_types.items() if isinstance(t, int)]
+                   for t, cs in reg.instance_types()[0] for c in cs[:1]]
     push_items = ["(%d, ⟨%s, %s, %d⟩)" % (info, lstr(short(c)), lstr(c.__name__), info)
-                  for info, c in pushbutton._PushbuttonEvent._event_classes.items() if isinstance(info, int)]
+                  for info, cs in reg.pushbutton_events()[0] for c in cs[:1]]
 
     # ---- top level and addresses ---------------------------------------------------------------
     def top_entry(c):
         return {"_GearCommand": ".gear", "_DeviceCommand": ".device", "_Event": ".event"}.get(
             c.__name__, ".custom " + lstr(short(c)))
     fs_items = ["(%d, [%s])" % (n, ", ".join(top_entry(c) for c in subs))
-                for n, subs in command.Command._framesizes.items() if isinstance(n, int)]
+                for n, subs in reg.frame_sizes()[0]]
     akind = {"GearAddress": ".gearAbstract", "DeviceAddress": ".deviceAbstract",
              "GearBroadcast": ".gearBroadcast", "DeviceBroadcast": ".deviceBroadcast",
              "GearBroadcastUnaddressed": ".gearUnaddressed", "DeviceBroadcastUnaddressed": ".deviceUnaddressed",
              "GearGroup": ".gearGroup", "DeviceGroup": ".deviceGroup", "GearShort": ".gearShort",
              "DeviceShort": ".deviceShort"}
-    addr_items = [akind[c.__name__] for c in address.Address._addrtypes if c.__name__ in akind]
-    unknown_addr = [c.__name__ for c in address.Address._addrtypes if c.__name__ not in akind]
+    addr_items = [akind[c.__name__] for c in reg.address_kinds()[0] if c.__name__ in akind]
+    unknown_addr = [c.__name__ for c in reg.address_kinds()[0] if c.__name__ not in akind]
 
     # ---- class rows (C03) -------------------------------------------------------------------------
     def resp_kind(r):
@@ -210,7 +210,7 @@ def generate(repo):
         return "custom"
 
     rows = []
-    for c in sorted(command.Command._commands, key=short):
+    for c in sorted(reg.all_commands()[0], key=short):
         fam = family(c)
         code = 0
         for attr in ("_cmdval", "_opcode", "_event_info"):
